@@ -83,7 +83,13 @@ func (w *World) doUserSend(in Intent) {
 	amt, fee := bigOf(in.Amt), bigOf(in.Fee)
 	msg := &mhub2types.MsgSendToExternal{Sender: u.Acc.Addr.String(), ExternalRecipient: w.destHex(in.Dest, u),
 		Amount: sdk.Coin{Denom: in.Denom, Amount: sdk.NewIntFromBigInt(amt)}, BridgeFee: sdk.Coin{Denom: in.Denom, Amount: sdk.NewIntFromBigInt(fee)}, ChainId: in.Chain}
-	w.Submit("user_send", u.Acc, in.Net, map[string]string{"chain": in.Chain, "denom": in.Denom, "amt": in.Amt, "fee": in.Fee, "user": strconv.Itoa(u.Idx)}, msg)
+	msgs := []sdk.Msg{msg}
+	// several withdrawals in ONE hub transaction (they share the transaction hash)
+	for i := 1; i < in.N && i < 5; i++ {
+		m2 := *msg
+		msgs = append(msgs, &m2)
+	}
+	w.Submit("user_send", u.Acc, in.Net, map[string]string{"chain": in.Chain, "denom": in.Denom, "amt": in.Amt, "fee": in.Fee, "user": strconv.Itoa(u.Idx), "n": strconv.Itoa(len(msgs))}, msgs...)
 }
 
 func (w *World) doUserCancel(in Intent) {
@@ -641,6 +647,13 @@ func (w *World) doRelay(in Intent) {
 			return
 		}
 		b := bs[in.Pick%len(bs)]
+		if in.Pick >= 5 { // 7 = newest, 6 = second newest, 5 = third newest
+			k := len(bs) - 1 - (7 - in.Pick)
+			if k < 0 {
+				k = 0
+			}
+			b = bs[k]
+		}
 		sigBy := map[[20]byte][]byte{}
 		for _, c := range w.queryBatchConfs(in.Chain, b.ExternalTokenId, b.BatchNonce) {
 			sigBy[ext.ParseAddr(c.ExternalSigner)] = c.Signature
